@@ -70,7 +70,7 @@ Qed.
 
 (** ** the step, without bounds-checking noise *)
 Definition cb_next (op : N) (cb : Z) : Z :=
-  if (op =? OP_IF) || (op =? OP_NOTIF) || (op =? OP_VERIF) || (op =? OP_VERNOTIF) then (cb + 1)%Z
+  if (op =? OP_IF) || (op =? OP_NOTIF) then (cb + 1)%Z
   else if op =? OP_ENDIF then (cb - 1)%Z else cb.
 
 (** what Parse appends at a top-level OP_RETURN followed by [r] *)
